@@ -19,6 +19,7 @@ import (
 	"strconv"
 	"strings"
 	"sync"
+	"syscall"
 	"time"
 )
 
@@ -187,6 +188,34 @@ func runWorker(ck Check, tier string, seed int64, part string, shard, of int, ou
 	return 2
 }
 
+// acquireSlot takes one of N machine-wide worker slots (flock on files under
+// /dev/shm) so that several checks running at the same time share the cores
+// instead of oversubscribing them. Returns a release function.
+func acquireSlot(n int) func() {
+	dir := "/dev/shm/verif-slots"
+	if err := os.MkdirAll(dir, 0o777); err != nil {
+		return func() {}
+	}
+	start := os.Getpid()
+	for {
+		for i := 0; i < n; i++ {
+			k := (start + i) % n
+			f, err := os.OpenFile(filepath.Join(dir, fmt.Sprintf("slot-%d", k)), os.O_CREATE|os.O_RDWR, 0o666)
+			if err != nil {
+				return func() {}
+			}
+			if syscall.Flock(int(f.Fd()), syscall.LOCK_EX|syscall.LOCK_NB) == nil {
+				return func() {
+					syscall.Flock(int(f.Fd()), syscall.LOCK_UN)
+					f.Close()
+				}
+			}
+			f.Close()
+		}
+		time.Sleep(20 * time.Millisecond)
+	}
+}
+
 type job struct {
 	part  Part
 	shard int
@@ -236,6 +265,8 @@ func master(ck Check, tier string, seed int64, only string) int {
 		go func(i int, j job) {
 			defer wg.Done()
 			defer func() { <-sem }()
+			release := acquireSlot(runtime.NumCPU())
+			defer release()
 			n := j.part.Shards
 			if n <= 0 {
 				n = 1
